@@ -30,6 +30,17 @@
 // crash; no exception may leave simulation::run() (key exception-escaped-run:<type>); and the next client must be
 // accepted and served like after any other client. Random mode turns about 1 in 8 plain clients into such a client
 // (decided by a separate random stream, --badport 0 switches it off); mode cuts has four such streams.
+//
+// STAGED CLIENTS (good requests only, the ordinary oracle applies unchanged). The requests of a client go out in
+// 2-3 stages, each stage in ONE write: the first at connect; a later one either once the complete replies to all
+// earlier requests have arrived (+ a delay), or a fixed virtual time after the previous stage was released (a few
+// hundred microseconds: while the previous request is still being written to the origin; or long: whatever state
+// the proxy is in by then). So requests reach the proxy when its connection to the origin is already up and
+// possibly busy: several complete requests in one read, a request behind an outstanding write. Optionally with
+// request headers of a few kB (the proxy's write to the origin takes several congestion-window rounds) and a slow
+// path into the origin. Random mode turns about every other reachable client with at least two requests into such a
+// client (separate random stream, --staged 0 switches it off); mode cuts has two streams whose pieces wait for
+// the replies to the requests that were complete before them.
 #include "vf.hpp"
 #include "simulator/http_proxy.hpp"
 
@@ -150,6 +161,11 @@ struct ClientPlan
 	bool closes_early = false;    // origin closes before all responses are out
 	int abort_piece = -1;         // >= 0: the client hangs up after releasing this piece (opt-in extension, --abort 1)
 	std::int64_t abort_delay = 0;
+	struct Stage { int first_req; int mode; std::int64_t delay; }; // mode 0: at connect, 1: after the replies to all earlier requests (+delay), 2: delay after the previous stage went out
+	std::vector<Stage> stages;    // staged client: stage k is one piece of the stream
+	bool gate_by_offset = false;  // mode cuts: every piece waits for the replies to the requests that were complete before it
+	std::vector<std::size_t> wait_rx; // piece k is released only once this many bytes have been received (empty: no gating)
+	bool staged() const { return !stages.empty() || gate_by_offset; }
 	int odd = -1;                 // >= 0: index of the request whose URI has a ":port" that is not a port number
 	std::string odd_form, odd_text; // class of the bad port (stable name) and its literal text
 	std::string str() const;
@@ -172,6 +188,14 @@ std::string ClientPlan::str() const
 	s += fmt(" end=%s next=%s", end_mode ? "on-complete" : "quiescence", next_delay < 0 ? "quiescence" : fmt("+%" PRId64 "us", next_delay / 1000).c_str());
 	if (closes_early) s += " origin-closes-early";
 	if (abort_piece >= 0) s += fmt(" CLIENT-HANGS-UP after piece %d +%" PRId64 "us", abort_piece, abort_delay / 1000);
+	if (!stages.empty())
+	{
+		s += " STAGED[";
+		for (std::size_t i = 0; i < stages.size(); ++i)
+			s += fmt("%sreq%d:%s+%" PRId64 "us", i ? " " : "", stages[i].first_req, stages[i].mode == 0 ? "connect" : stages[i].mode == 1 ? "replies" : "prev", stages[i].delay / 1000);
+		s += "]";
+	}
+	if (gate_by_offset) s += " PIECES-WAIT-FOR-REPLIES";
 	if (odd >= 0) s += fmt(" BAD-PORT(%s) '%s' in request %d", odd_form.c_str(), printable(odd_text, 40).c_str(), odd);
 	s += " [";
 	for (std::size_t i = 0; i < reqs.size(); ++i) s += (i ? " | " : "") + reqs[i].what;
@@ -256,6 +280,7 @@ struct Cli
 	bool ended = false, ended_by_peer = false, self_closed = false, open_at_quiescence = false; int end_ec = 0;
 	std::size_t released = 0, tx_off = 0, piece = 0; bool writing = false, w_failed = false, reading = false;
 	std::int64_t t_start = 0, t_connected = -1, t_end = -1;
+	bool gated = false;           // the next piece waits for reply bytes
 	std::size_t fwd_seen = 0;     // requests of this client that reached an origin
 	bool rx_overflow = false;
 };
@@ -609,6 +634,12 @@ struct World
 				})));
 				return;
 			}
+			if (!p.wait_rx.empty() && c.rx.size() < p.wait_rx[c.piece])
+			{
+				// cread() comes back here once the bytes are in (no timer is pending at this point)
+				c.gated = true;
+				return;
+			}
 			std::int64_t const gap = p.gaps[c.piece];
 			if (gap > 0)
 			{
@@ -674,6 +705,14 @@ struct World
 				return;
 			}
 			if (c2.rx.size() > (8u << 20)) { c2.rx_overflow = true; c2.self_closed = true; end_client(i); return; }
+			if (c2.gated && c2.rx.size() >= plans[std::size_t(i)].wait_rx[c2.piece])
+			{
+				c2.gated = false;
+				R().count("staged_pieces_released_after_replies");
+				VLOG("[%" PRId64 "] client %d: the replies awaited are complete, next piece", now_ns(), i);
+				schedule_piece(i);
+				if (c2.ended) return;
+			}
 			check_complete(i);
 			cread(i);
 		})));
@@ -1023,6 +1062,98 @@ void make_bad_port_client(Rng& r, ClientPlan& p)
 	if (p.target == T_DEFPORT || (b.blank && p.target == T_REACH)) { p.target = T_REFUSED; p.why503 = "bad-port"; }
 }
 
+// ---------------------------------------------------------------- staged clients
+// Decides the stages of a reachable client with good requests only, pads some requests with a large header and
+// may slow the path into the origin down. Called before finish_plan(); apply_stages() lays the pieces out afterwards.
+// Decisions come from `r`, a stream of their own.
+void plan_stages(Rng& r, World& w, Setup const& s, ClientPlan& p)
+{
+	if (p.target != T_REACH || p.tail != TL_NONE || p.odd >= 0 || p.reqs.size() < 2) return;
+	for (auto const& q : p.reqs) if (q.resp.close_after >= 0) return;
+	int const n = int(p.reqs.size());
+	int const ngroups = n >= 3 && r.coin() ? 3 : 2;
+	int f1 = 1, f2 = 0;
+	if (!r.coin(3, 4)) f1 = 1 + r.choose(n - ngroups + 1);
+	if (ngroups == 3) f2 = r.coin(2, 3) ? f1 + 1 : f1 + 1 + r.choose(n - f1 - 1);
+	static std::vector<std::int64_t> const after_reply = {0, 0, 1000, 200000, 5000000, 40000000};
+	static std::vector<std::int64_t> const shortly = {1000, 100000, 300000, 700000, 2000000, 10000000};
+	static std::vector<std::int64_t> const later = {1000000, 5000000, 20000000, 50000000, 120000000, 300000000, 1000000000};
+	p.stages.push_back(ClientPlan::Stage{0, 0, 0});
+	if (r.coin(3, 5)) p.stages.push_back(ClientPlan::Stage{f1, 1, r.pick(after_reply)});
+	else p.stages.push_back(ClientPlan::Stage{f1, 2, r.pick(later)});
+	if (ngroups == 3)
+	{
+		int const k = r.choose(10);
+		if (k < 5) p.stages.push_back(ClientPlan::Stage{f2, 2, r.pick(shortly)});
+		else if (k < 8) p.stages.push_back(ClientPlan::Stage{f2, 1, r.pick(after_reply)});
+		else p.stages.push_back(ClientPlan::Stage{f2, 2, r.pick(later)});
+	}
+	// large request headers: the proxy's write to the origin takes several rounds
+	if (r.coin())
+	{
+		std::size_t total = 0; for (auto const& q : p.reqs) total += q.raw.size();
+		static std::vector<std::size_t> const pads = {1500, 3000, 6000, 9000};
+		for (int i = r.coin(1, 4) ? 0 : f1; i < n; ++i)
+		{
+			if (!r.coin()) continue;
+			std::size_t const len = r.pick(pads);
+			if (total + len + 40 > 38000) break;
+			Req& q = p.reqs[std::size_t(i)];
+			std::string v; for (std::size_t j = 0; j < len; ++j) v += char('a' + (j * 5 + std::size_t(i)) % 26);
+			q.raw.insert(q.raw.size() - 2, "X-Stage-Pad: " + v + "\r\n");
+			q.headers["x-stage-pad"] = v;
+			q.what += fmt(" pad%zu", len);
+			total += len + 16;
+			R().count("staged_requests_with_large_header");
+		}
+	}
+	// a slow path into the origin
+	if (r.coin())
+	{
+		ip::address const& A = p.origin == 0 ? s.O1 : s.O2;
+		if (!w.net.in_spec.count(A))
+		{
+			static std::vector<int> const bws = {50000, 200000, 1000000};
+			static std::vector<std::int64_t> const lats = {1000000, 10000000, 30000000};
+			QSpec q; q.bw = r.pick(bws); q.lat_ns = r.pick(lats); q.cap = 0;
+			w.net.in_spec[A] = {q};
+			R().count("staged_clients_with_slow_origin_path");
+		}
+	}
+}
+
+// pieces = stages; piece 0 keeps the start delay it was given
+void apply_stages(ClientPlan& p)
+{
+	if (p.stages.empty()) return;
+	std::vector<std::size_t> req_end, resp_end;
+	std::size_t a = 0, b = 0;
+	for (auto const& q : p.reqs) { a += q.raw.size(); b += q.resp.bytes.size(); req_end.push_back(a); resp_end.push_back(b); }
+	std::int64_t const g0 = p.gaps.empty() ? 0 : p.gaps[0];
+	p.bounds.clear(); p.gaps.clear(); p.wait_rx.clear();
+	for (std::size_t k = 0; k < p.stages.size(); ++k)
+	{
+		ClientPlan::Stage const& st = p.stages[k];
+		p.bounds.push_back(k + 1 < p.stages.size() ? req_end[std::size_t(p.stages[k + 1].first_req) - 1] : p.stream.size());
+		p.gaps.push_back(k == 0 ? g0 : st.delay);
+		p.wait_rx.push_back(st.mode == 1 ? resp_end[std::size_t(st.first_req) - 1] : 0);
+	}
+}
+
+// mode cuts: piece k waits for the replies to the requests that end at or before its first byte
+void gate_pieces_by_offset(ClientPlan& p)
+{
+	p.gate_by_offset = true;
+	p.wait_rx.clear();
+	for (std::size_t k = 0; k < p.bounds.size(); ++k)
+	{
+		std::size_t const start = k == 0 ? 0 : p.bounds[k - 1];
+		std::size_t a = 0, need = 0;
+		for (auto const& q : p.reqs) { a += q.raw.size(); if (a > start) break; need += q.resp.bytes.size(); }
+		p.wait_rx.push_back(need);
+	}
+}
+
 Req random_valid(World& w, ClientPlan const& p, int ci, int ri, std::size_t budget)
 {
 	Rng& rng = w.rng;
@@ -1280,8 +1411,10 @@ void evaluate(World& w)
 		}
 		else if (p.target == T_REACH && p.tail == TL_NONE)
 		{
+			if (p.staged()) R().count("staged_clients_run");
 			if (c.rx == p.expect)
 			{
+				if (p.staged()) R().count("staged_clients_relay_verified");
 				R().count("clients_relay_verified");
 				R().count("response_bytes_verified", c.rx.size());
 				std::size_t nresp = 0; for (int f : p.fwd) { (void)f; ++nresp; }
@@ -1400,7 +1533,8 @@ void finish_case(World& w, bool with_stop)
 }
 
 // ---------------------------------------------------------------- mode "cuts": bounded exhaustive
-struct Scen { char const* name; int target, tail, hk; char const* host; int port; std::vector<std::string> reqs; int bad_port_req; /* 1-based, 0 = none */ char const* bad_port_form; };
+struct Scen { char const* name; int target, tail, hk; char const* host; int port; std::vector<std::string> reqs; int bad_port_req; /* 1-based, 0 = none */ char const* bad_port_form;
+	int staged; /* 1: pieces wait for the replies to the requests complete before them; 2: same, single cuts only */ };
 
 std::vector<Scen> const& scenarios()
 {
@@ -1425,6 +1559,9 @@ std::vector<Scen> const& scenarios()
 		{"bad-port-empty-named", T_REFUSED, TL_NONE, H_NAME, "a", 0, {"G http://a:/ HTTP/1.1\r\n\r\n"}, 1, "empty"},
 		{"bad-port-overflow-v6", T_REFUSED, TL_NONE, H_V6, "[2001:db8::6]", 0, {"G http://[2001:db8::6]:99999999999 HTTP/1.1\r\n\r\n"}, 1, "overflows-int"},
 		{"named+bad-port", T_REACH, TL_NONE, H_NAME, "a", 8080, {"G http://a:8080/1 HTTP/1.1\r\n\r\n", "G http://a:x/2 HTTP/1.1\r\n\r\n"}, 2, "non-numeric"},
+		// staged: a piece is sent only after the complete replies to the requests that ended before it
+		{"staged-pipe3-named", T_REACH, TL_NONE, H_NAME, "a", 8080, {"G http://a:8080/1 HTTP/1.1\r\n\r\n", "G http://a:8080/2 HTTP/1.1\r\n\r\n", "G http://a:8080/3 HTTP/1.1\r\n\r\n"}, 0, nullptr, 1},
+		{"staged-pipe4-v4", T_REACH, TL_NONE, H_V4, "10.0.0.3", 8080, {"G http://10.0.0.3:8080/1 HTTP/1.1\r\n\r\n", "G http://10.0.0.3:8080/2 HTTP/1.1\r\nA: b\r\n\r\n", "P http://10.0.0.3:8080 HTTP/1.0\r\n\r\n", "G http://10.0.0.3:8080/4 HTTP/1.1\r\n\r\n"}, 0, nullptr, 2},
 	};
 	return s;
 }
@@ -1433,7 +1570,7 @@ std::uint64_t scen_cases(Scen const& s, bool pairs)
 {
 	std::size_t n = 0; for (auto const& r : s.reqs) n += r.size();
 	std::uint64_t const k = n - 1;
-	return 1 + k + (pairs ? k * (k - 1) / 2 : 0);
+	return 1 + k + (pairs && s.staged != 2 ? k * (k - 1) / 2 : 0);
 }
 
 Req parse_fixed(std::string const& raw)
@@ -1511,6 +1648,7 @@ void case_cuts(Args const& a, std::uint64_t c)
 		finish_plan(p);
 		p.bounds = cuts; p.bounds.push_back(n);
 		p.gaps.assign(p.bounds.size(), gap); p.gaps[0] = 0;
+		if (sc.staged) gate_pieces_by_offset(p);
 		p.end_mode = int(c % 2);
 		p.next_delay = (c / 2) % 2 ? 0 : -1;
 	}
@@ -1541,6 +1679,8 @@ void case_random(Args const& a, std::uint64_t c)
 	Rng rng(hcomb(hcomb(a.seed, 0xC18), c));
 	Rng brng(hcomb(hcomb(a.seed, 0xC18B), c)); // decisions about bad ports only
 	bool const bad_ports = a.geti("badport", 1) != 0;
+	Rng srng(hcomb(hcomb(a.seed, 0xC185), c)); // decisions about staged clients only
+	bool const staging = a.geti("staged", 1) != 0;
 	World w(a, rng);
 	Setup s;
 	static std::vector<int> const pp = {8080, 1024, 3000, 49152, 65534, 65535};
@@ -1592,8 +1732,10 @@ void case_random(Args const& a, std::uint64_t c)
 			}
 		}
 		if (bad_ports && p.tail == TL_NONE && brng.coin(1, 6)) make_bad_port_client(brng, p);
+		if (staging && srng.coin(1, 2)) plan_stages(srng, w, s, p);
 		finish_plan(p);
 		random_cuts(w, p);
+		apply_stages(p);
 		// (a client whose origin hangs up early cannot know when it has everything: it stays until the proxy closes or quiescence)
 		p.end_mode = p.closes_early ? (rng.choose(2), 0) : rng.choose(2);
 		static std::vector<std::int64_t> const nd = {-1, -1, 0, 0, 1000, 10000000, 60000000};
